@@ -1,6 +1,7 @@
 //! One module per family of properties; `run` dispatches a check, `replay` re-executes a saved case.
 
 pub mod diff;
+pub mod http;
 pub mod iso;
 pub mod seq;
 pub mod urgency;
@@ -8,7 +9,7 @@ pub mod urgency;
 use crate::engine::{CheckResult, Fail, Report, Stats, Tier};
 use serde_json::Value;
 
-pub const ALL: &[&str] = &["C01", "C02", "C07", "C08", "C09", "C10", "C11", "C12", "C13", "C18"];
+pub const ALL: &[&str] = &["C01", "C02", "C07", "C08", "C09", "C10", "C11", "C12", "C13", "C14", "C15", "C16", "C18", "C20"];
 
 pub fn run(id: &str, tier: Tier, seed: u64) -> Option<Report> {
     match id {
@@ -16,6 +17,7 @@ pub fn run(id: &str, tier: Tier, seed: u64) -> Option<Report> {
         "C09" => Some(iso::run(tier, seed)),
         "C12" => Some(urgency::run(tier, seed)),
         "C13" => Some(diff::run(tier, seed)),
+        "C14" | "C15" | "C16" | "C20" => Some(http::run(id, tier, seed)),
         _ => None,
     }
 }
@@ -26,6 +28,7 @@ fn replay_case(prop: &str, kind: &str, case: &Value, st: &mut Stats) -> Option<C
         "C09" => iso::replay(kind, case, st),
         "C12" => urgency::replay(kind, case, st),
         "C13" => diff::replay(kind, case, st),
+        "C14" | "C15" | "C16" | "C20" => http::replay(prop, kind, case, st),
         _ => return None,
     })
 }
